@@ -1489,12 +1489,12 @@ def run(ck):
             continue
         if m is None:
             continue
-        # quick: the Python search sees every input, Coq (verified checker + correspondence) the first 100 corpus molecules
-        # and everything else; thorough: everything
+        # the Python search sees every input; Coq (verified checker, certificates, correspondence) sees everything except the
+        # corpus molecules beyond the first 100 (quick) / 2000 (thorough)
         to_coq = True
         if tag.startswith('lipo:'):
             n_lipo += 1
-            to_coq = (not quick) or n_lipo <= 100
+            to_coq = n_lipo <= (100 if quick else 2000)     # thorough: 2000 of the 4200 corpus molecules (and their rebuilt copies) go through Coq
         handle(tag, m, to_coq=to_coq, renumber=2 if quick else 3)
         if len(m) <= 60:
             for t in range(2):
